@@ -126,7 +126,7 @@ def _parse_body(c, body):
                 where = "after" if "after" in kw else "before" if "before" in kw else \
                     "loop_head" if "loop_head" in kw else "loop_exit" if "loop_exit" in kw else "entry"
                 text = _const(kw[where]) if where in kw else None
-                nth = _const(kw["nth"]) if "nth" in kw else 0
+                nth = _const(kw["nth"]) if "nth" in kw else None      # None: every occurrence of the statement text
                 stmts = kw["do"].elts if "do" in kw else []
                 c.ghosts.append(Ghost(where, text, nth, stmts))
             elif f == "local":
